@@ -31,6 +31,8 @@ fn comment_cfgs(tier: Tier, se: u16) -> Vec<Cfg> {
         b.clone().with("fn_params_layout", "Vertical"),
         b.clone().with("struct_lit_single_line", "false"),
         b.clone().with("error_on_unformatted", "true"),
+        // vertical alignment splits field / variant lists into groups at blank lines, with positions of its own
+        b.clone().with("struct_field_align_threshold", "20").with("enum_discrim_align_threshold", "20"),
     ];
     if tier == Tier::Thorough {
         v.push(b.clone().with("fn_params_layout", "Compressed"));
@@ -89,7 +91,7 @@ impl Prop for C03 {
         "corpus A form x context x {L0, LALL} x EVERY claimed comment position (before / after / after-separator of every item, \
          statement, field, variant, arm, parameter, argument from the independent parse; every token gap inside fn-body \
          statements) x comment style {line, block inline, block own line, two-line block, `////`, `/***`} x default and \
-         comment-relevant configurations x style editions x every width; pairs of comments in the thorough tier. \
+         comment-relevant configurations x style editions x every width (quick tier, deviated configurations: every width up to 70 and every fifth above); pairs of comments in the thorough tier. \
          Non-trivial = the case has a comment and the code around it was re-laid out (output differs from input); \
          distinct = distinct (input, config)."
             .into()
@@ -134,7 +136,12 @@ impl Prop for C03 {
                     continue;
                 }
             }
+            let family = u.extra["family"].as_str().unwrap_or("").to_string();
             for cfg in comment_cfgs(tier, u.cfg.style_edition) {
+                // the alignment options concern field / variant lists only
+                if cfg.get("struct_field_align_threshold").is_some() && !(family == "struct" || family == "enum") {
+                    continue;
+                }
                 let mut v = u.clone();
                 v.cfg = cfg;
                 units.push(v);
@@ -189,6 +196,12 @@ impl Prop for C03 {
                     }
                 }
             };
+            let mut styles = styles;
+            if *kind == PosKind::Before && (thorough || u.cfg.get("struct_field_align_threshold").is_some()) {
+                // a comment next to a blank line (group boundaries)
+                styles.push(CStyle::LineOwnBlankAfter);
+                styles.push(CStyle::LineOwnBlankBefore);
+            }
             for st in styles {
                 let input = gen::insert_comments(&u.text, &[(*off, st)]);
                 cases.push((format!("+c@{off}:{kind:?}:{st:?}"), input));
@@ -234,6 +247,10 @@ impl Prop for C03 {
             let mut prev: Option<String> = None;
             let mut relaid = false;
             for w in widths_for(&u.cfg, tier) {
+                // quick tier, deviated configurations: every width up to 70, every fifth above
+                if !thorough && !default_cfg && w > 70 && w % 5 != 0 {
+                    continue;
+                }
                 let o = fmt::format(&input, &u.cfg, w);
                 if !o.ok() {
                     continue;
